@@ -2,7 +2,7 @@
 import numpy as np
 
 SHAPES = ["noise", "walk", "sine", "impulse_first", "impulse_mid", "impulse_last", "step", "ramp", "const",
-          "zero", "plateau_int", "burst"]
+          "zero", "plateau_int", "burst", "doublet"]
 
 
 def record(rng, n, shape=None, amp=None):
@@ -38,6 +38,15 @@ def record(rng, n, shape=None, amp=None):
         x = np.repeat(rng.integers(-3, 4, size=n), rng.integers(1, 4))[:n].astype(float)
         if len(x) < n:
             x = np.concatenate([x, np.zeros(n - len(x))])
+    elif shape == "doublet":     # balanced pulses: integer-valued, the samples sum to exactly zero
+        x = np.zeros(n)
+        k = max(1, n // 4)
+        p = rng.integers(1, 5, size=k).astype(float)
+        x[:k] = p
+        x[-k:] = x[-k:] - p[: len(x[-k:])]
+        x[0] += 0.0
+        if n >= 2 and np.sum(x) != 0:
+            x[-1] -= np.sum(x)
     elif shape == "burst":
         env = np.exp(-0.5 * ((t - n / 2.0) / (n / 6.0 + 1)) ** 2)
         x = env * rng.standard_normal(n)
